@@ -7,12 +7,15 @@ import (
 	"io"
 	"math/rand"
 	"os"
+	osexec "os/exec"
 	"path/filepath"
 	"regexp"
 	"runtime"
+	"sort"
 	"strconv"
 	"strings"
 	"sync"
+	"time"
 
 	task "github.com/go-task/task/v3"
 	taskerrors "github.com/go-task/task/v3/errors"
@@ -462,6 +465,26 @@ func Execute(p *Prog, seed int64, procs int, script []string, prefix []int) (*Ru
 			out.Steps++
 		}
 	}
+	// Writes that arrive between two releases are parked at the same time: their order in the log is
+	// the order in which the goroutines reached the gate, not something a user can observe.  The
+	// machine prints "started" in the step that registers a shared execution, the implementation
+	// prints it after releasing the table lock, so a waiter's "skipping" line can reach the gate
+	// first.  Canonical order within such a batch: "skipping" lines last.
+	for i := 0; i < len(out.Obs); {
+		j := i
+		for j < len(out.Obs) && out.Obs[j].Arr {
+			j++
+		}
+		if j-i > 1 {
+			sort.SliceStable(out.Obs[i:j], func(a, b int) bool {
+				return out.Obs[i+a].Ev.Kind != "skipping" && out.Obs[i+b].Ev.Kind == "skipping"
+			})
+		}
+		if j == i {
+			j++
+		}
+		i = j
+	}
 	out.Ambiguous = r.ambiguous
 	return out, nil
 }
@@ -477,7 +500,7 @@ type countLines struct {
 
 func (c *countLines) Write(p []byte) (int, error) {
 	c.mu.Lock()
-	c.n += strings.Count(string(p), "leaf-ran")
+	c.n += strings.Count(string(p), "leaf-ran") + strings.Count(string(p), "P|")
 	c.mu.Unlock()
 	return len(p), nil
 }
@@ -553,4 +576,125 @@ func PromptList(nprompts int, answers []string, asDep bool) (bool, string, error
 	}
 	res, _ := classify(e.Run(context.Background(), &task.Call{Task: root}))
 	return cl.n > 0, res, nil
+}
+
+// RunCyclicCLI runs a (possibly) cyclic program with the real task binary in a child process
+// (deadline, address-space limit): a cycle the call limit no longer ends must not take the driver
+// down with it.  The process is judged from outside: exit status, number of probe lines printed,
+// and — when the deadline kills it — the CPU time it used (none: it is blocked; lots: it is
+// still running).
+func RunCyclicCLI(p *Prog, deadline time.Duration) (*RunOut, error) {
+	bin := os.Getenv("VERIF_TASK_BIN")
+	if bin == "" {
+		return nil, fmt.Errorf("VERIF_TASK_BIN not set")
+	}
+	dir, err := os.MkdirTemp("", "vh-cyc")
+	if err != nil {
+		return nil, err
+	}
+	defer os.RemoveAll(dir)
+	y, _ := yaml.Marshal(p.Taskfile())
+	if err := os.WriteFile(filepath.Join(dir, "Taskfile.yml"), y, 0o644); err != nil {
+		return nil, err
+	}
+	args := []string{"-d", dir, "--silent"}
+	if p.Cfg.N > 0 {
+		args = append(args, "-C", fmt.Sprint(p.Cfg.N))
+	}
+	for k, rc := range p.Cfg.Roots {
+		args = append(args, p.rootName(k), fmt.Sprintf("V=%d", *rc.Var))
+	}
+	ctx, cancel := context.WithTimeout(context.Background(), deadline)
+	defer cancel()
+	// 6 GB of address space: a runaway recursion dies instead of eating the machine
+	cmd := osexec.CommandContext(ctx, "sh", append([]string{"-c", "ulimit -v 6000000; exec \"$0\" \"$@\"", bin}, args...)...)
+	cl := &countLines{}
+	cmd.Stdout = cl
+	cmd.Stderr = devNull{}
+	if err := cmd.Start(); err != nil {
+		return nil, err
+	}
+	// watchdog: no CPU time consumed and nothing printed for 3 s = the process is blocked
+	blocked := make(chan struct{})
+	stop := make(chan struct{})
+	go func() {
+		last, idle := int64(-1), 0
+		for {
+			select {
+			case <-stop:
+				return
+			case <-time.After(500 * time.Millisecond):
+			}
+			cl.mu.Lock()
+			n := int64(cl.n)
+			cl.mu.Unlock()
+			cur := procTicks(cmd.Process.Pid) + n
+			if cur == last {
+				idle++
+			} else {
+				idle = 0
+			}
+			last = cur
+			if idle >= 6 {
+				close(blocked)
+				_ = cmd.Process.Kill()
+				return
+			}
+		}
+	}()
+	runErr := cmd.Wait()
+	close(stop)
+	out := &RunOut{Procs: 0}
+	out.Steps = cl.n
+	cpu := time.Duration(0)
+	if cmd.ProcessState != nil {
+		cpu = cmd.ProcessState.UserTime() + cmd.ProcessState.SystemTime()
+	}
+	select {
+	case <-blocked:
+		out.Deadlock = true
+		out.Stacks = fmt.Sprintf("no CPU time and no output for 3 s (total %s of CPU time, %d probe lines): blocked", cpu, cl.n)
+		return out, nil
+	default:
+	}
+	if ctx.Err() != nil {
+		// killed at the deadline while still consuming CPU time
+		out.Overrun = true
+		out.Stacks = fmt.Sprintf("killed after %s with %s of CPU time and %d probe lines: still running", deadline, cpu, cl.n)
+		return out, nil
+	}
+	code := 0
+	if ee, ok := runErr.(*osexec.ExitError); ok {
+		code = ee.ExitCode()
+	} else if runErr != nil {
+		return nil, runErr
+	}
+	switch code {
+	case 0:
+		out.Result = "ROk"
+	case 201:
+		out.Result = "(RErr (ETaskRun None))"
+	default:
+		out.Result = fmt.Sprintf("(RErr (ECode %d))", code)
+	}
+	out.ResultStr = fmt.Sprintf("exit status %d", code)
+	return out, nil
+}
+
+// procTicks: utime+stime of a process in clock ticks (0 if it cannot be read).
+func procTicks(pid int) int64 {
+	b, err := os.ReadFile(fmt.Sprintf("/proc/%d/stat", pid))
+	if err != nil {
+		return 0
+	}
+	t := string(b)
+	if i := strings.LastIndex(t, ")"); i >= 0 {
+		f := strings.Fields(t[i+1:])
+		if len(f) > 13 {
+			u, _ := strconv.ParseInt(f[11], 10, 64)
+			sy, _ := strconv.ParseInt(f[12], 10, 64)
+			return u + sy
+		}
+	}
+	return 0
 }
